@@ -59,6 +59,11 @@ type c10Case struct {
 	// while its mysync keeps the manager lock: from the next iteration on h3 is an unregistered host
 	MgrHostRemoved bool           `json:"manager_host_removed_from_registry,omitempty"`
 	Dev            *sim.Deviation `json:"deviation,omitempty"`
+	// Retry != 0: a replica whose SQL thread fails on one event (thSQLErrPersistent) comes to that event
+	// again only in the rounds whose bit is set; in the other rounds it looks healthy (threads running,
+	// no error, executed set unchanged). 0: it fails again at once in every round.
+	Retry  uint32 `json:"rounds_in_which_the_replica_meets_the_failing_event,omitempty"`
+	Rounds int    `json:"rounds,omitempty"`
 }
 
 const c10Rounds = 14
@@ -231,7 +236,11 @@ func c10Run(r *vt.Run, c c10Case) (points []sim.Point) {
 				}
 			})
 		}
-		for round := 0; round < c10Rounds; round++ {
+		rounds := c10Rounds
+		if c.Rounds > 0 {
+			rounds = c.Rounds
+		}
+		for round := 0; round < rounds; round++ {
 			h.InjectHealth()
 			if c.MgrHostRemoved && round == 4 {
 				w.ZK.Del(vns + "/ha_nodes/h3")
@@ -252,8 +261,11 @@ func c10Run(r *vt.Run, c c10Case) (points []sim.Point) {
 				violate("0-engine", fmt.Sprintf("panics=%v at %s unknown=%v in round %d", w.Panics, h.PanicWhere(), w.Unknown, round))
 				return
 			}
-			for _, x := range spec.HA {
+			for i, x := range spec.HA {
 				w.Replicate(x)
+				if c.Retry != 0 && i > 0 && c.Nodes[i-1].Threads == thSQLErrPersistent && c.Retry&(1<<uint(round)) == 0 {
+					continue // has not come to the failing event again yet
+				}
 				w.Apply(x)
 			}
 			noteErr()
@@ -423,6 +435,45 @@ func checkC10(r *vt.Run) {
 					}
 				}
 			}
+		}
+	}	// a replica that looks cured for a while after a repair attempt and then meets the same failing
+	// event again, its executed set never moving: every schedule of "meets the event in round i" up to
+	// the bound - the attempt limits hold per episode of an unchanged executed set
+	flap := c10Node{true, false, srcMaster, thSQLErrPersistent, true, 0}
+	var masks []uint32
+	nr := 22
+	if r.Thorough() {
+		nr = 14
+		for m := uint32(1); m < 1<<14; m++ {
+			masks = append(masks, m)
+		}
+	} else {
+		for p := 2; p <= 7; p++ {
+			for ph := 0; ph < p; ph++ {
+				var m uint32
+				for i := 0; i < nr; i++ {
+					if i%p == ph {
+						m |= 1 << uint(i)
+					}
+				}
+				masks = append(masks, m)
+			}
+		}
+	}
+	r.Bound("retry_schedules", len(masks))
+	for _, ma := range []int{1, 2} {
+		for _, m := range masks {
+			idx++
+			if !r.Mine(idx) {
+				continue
+			}
+			if idx%64 == 0 && r.Expired() {
+				return
+			}
+			c := c10Case{Nodes: [2]c10Node{flap, healthy}, SemiSync: true, Aggressive: true, MaxAttempts: ma, Retry: m, Rounds: nr}
+			r.Crumb(c)
+			c10Run(r, c)
+			r.Count("retry_schedules_run")
 		}
 	}
 }
